@@ -74,6 +74,19 @@ def cases(tier: str) -> List[Dict[str, Any]]:
                     c = D.make_case(h, second, sch, w, row_order=ro)
                     if c:
                         out.append(c)
+    # every timestamp written at -05:00 / +09:00 around New Year (own year != UTC year): the Summary lines are per OWN year and link to the first
+    # detail row of that year
+    for h in D.histories(2 if tier == "quick" else 3):
+        idx = sum(ord(c) for c in str(h)) % 3
+        for tz in (-300, 540):
+            s1 = D.specs_for(h, "a", tz=tz, new_year=True)
+            if s1 is None:
+                continue
+            s2 = D.specs_for(D.SECOND[idx], "b", tz=tz, new_year=True)
+            for w in D.windows(D.event_dates([s1, s2 or []]), "few"):
+                c = D.make_case(h, idx, "fifo", w, tz=tz, new_year=True)
+                if c:
+                    out.append(c)
     # the data of the 9 inputs bundled with RP2, every row given a unique id
     out += D.bundled_cases(["rp2_full_report"], methods=("fifo",) if tier == "quick" else ("fifo", "hifo"), mode="few" if tier == "quick" else "all")
     return out
